@@ -506,7 +506,7 @@ func genC06(o *vcoq.Out, r *vcoq.Rand, tier string) error {
 	o.CaseType = "c06case"
 	o.Judge = "judge"
 	o.Shard = 120
-	o.Rule = "random messages of TestAllTypes (all field kinds, depth <= 2) and traits Brightness, AirTemperature, ElectricMode built by reflection from tiny value alphabets; read masks by class: nil, empty, single, multi (2-5 paths), duplicate, parent+child, child+parent, siblings, prefix-named siblings, through-repeated-message, family (a parent path + 0..3 paths below it at any depth, duplicates, shuffled), chain (p / p.a / p.a.b, shuffled) - the last two read by EVERY consumer (75% of paths walk POPULATED fields so projections are non-empty); a malformed stream with one corrupted path per mask (unknown segment, continuation through scalar / map / repeated scalar / repeated message, empty segment) alone or next to valid paths. Each (message, mask) is read by FilterClone (+Validate) and, for a third of them, also by Filter, Value.Get, Collection.List and the seed of Value.Pull. Event path: 45 backpressured streams per run (Collection.Pull + PullID over Add, Update, Delete, and with WithInclude an Update that stops matching; Value.Pull over seed + 2 Sets) with a read mask: the new AND old value of every event is judged against the projection of what the writes returned as stored. Every FilterClone also yields an aliasing observation (message-struct pointers shared with the message passed in, same root) judged against the ownership model. Fixed: nil / typed-nil messages and messages with unknown fields (no panic, source untouched). Non-trivial: non-empty mask on a non-empty message; distinct by the full case term."
+	o.Rule = "random messages of TestAllTypes (all field kinds, depth <= 2) and traits Brightness, AirTemperature, ElectricMode built by reflection from tiny value alphabets; read masks by class: nil, empty, single, multi (2-5 paths), duplicate, parent+child, child+parent, siblings, prefix-named siblings, through-repeated-message, family (a parent path + 0..3 paths below it at any depth, duplicates, shuffled), chain (p / p.a / p.a.b, shuffled) - the last two read by EVERY consumer (75% of paths walk POPULATED fields so projections are non-empty); a malformed stream with one corrupted path per mask (unknown segment, continuation through scalar / map / repeated scalar / repeated message, empty segment) alone or next to valid paths. Each (message, mask) is read by FilterClone (+Validate) and, for a third of them, also by Filter, Value.Get, Collection.List and the seed of Value.Pull. Event path: 45 backpressured streams per run (Collection.Pull + PullID over Add, Update, Delete, and with WithInclude an Update that stops matching; Value.Pull over seed + 2 Sets) with a read mask: the new AND old value of every event is judged against the projection of what the writes returned as stored. Lossy event path: 24 scenarios per run WITHOUT backpressure (Collection.Pull two thirds, Value.Pull one third), 1-3 concurrent subscriptions with different masks (an unmasked one among them half of the time), the driver is the reader: stalled phases (plug write, a script of delete / re-add, delete, add, add + delete, update over three ids, barrier write, then drain) and live phases (drain after every write); every delivered change is identified by its write time (new value = what that write stored) and by what the subscriber last saw for the id (old value), whatever the merge stage did, and judged as a KEvent case (kinds ADD, UPDATE, REMOVE, REPLACE) against the model of CollectionChange.filter and the projection; every delivered change is deep-copied at receipt and compared again after all subscriptions have been drained. Trait models: openclosepb (no presets / positions matching no preset / matching one / preset applied by a write; Model.GetPositions, ModelServer.GetPositions, first value of PullPositions), lightpb, fanspeedpb (Model and ModelServer), airtemperaturepb, electricpb demand, occupancysensorpb, energystoragepb: the masked read against the projection of the unmasked read made just before, under masks ENUMERATED from the response descriptor (every path into every message-typed field up to depth 3 alone, next to top-level fields, sibling pairs, parent + child, every top-level field, nil, empty). The same enumerated nested paths on the core resources (FilterClone, Value.Get / Collection.List, Collection.Get) for one populated message per generated type. Every FilterClone also yields an aliasing observation (message-struct pointers shared with the message passed in, same root) judged against the ownership model. Fixed: nil / typed-nil messages and messages with unknown fields (no panic, source untouched). Non-trivial: non-empty mask on a non-empty message; distinct by the full case term."
 	g := &c06{o: o, r: r}
 	scale := 1
 	if tier == "thorough" {
@@ -583,6 +583,15 @@ func genC06(o *vcoq.Out, r *vcoq.Rand, tier string) error {
 	}
 	// event path: masked, backpressured Pulls over a few writes (new and old values of every event)
 	g.streams(45 * scale)
+	// the same without backpressure: merge stage in front of the filter, stalled and live readers, REPLACE
+	xs := scale // the round-4 generators: x6 in the thorough tier, to stay inside its 15 minutes
+	if xs > 6 {
+		xs = 6
+	}
+	g.lossyStreams(24 * xs)
+	// trait models (assembled / derived responses) and the core resources under enumerated nested masks
+	g.traitModels(xs)
+	g.nestedEachCore(xs)
 	// the inputs of the two defects repaired in pkg/masks/get.go, always present
 	st := &testproto.TestAllTypes{DefaultInt32: 7, DefaultForeignMessage: &testproto.ForeignMessage{C: 1, D: 2},
 		MapStringNestedMessage: map[string]*testproto.TestAllTypes_NestedMessage{"a": {A: 1}}, RepeatedInt32: []int32{1, 2}}
